@@ -108,7 +108,7 @@ def sessions() -> list:
                         caps.append(build.cap_addpath([(a, s, 3) for a, s in ADDPATH_FAMS]))
                     if big:
                         caps.append(build.cap_ext_msg())
-                    neg = exa.negotiate(neighbor, build.open_with_caps(peer_as, 90, 0x0A000002, caps), exa.Direction.OUT)
+                    neg = exa.negotiate(neighbor, build.open_with_caps(peer_as, 90, 0x0A000002, caps), exa.Direction.IN)
                     if bool(neg.asn4) != asn4 or neg.msg_size != (65535 if big else 4096):
                         raise RuntimeError('harness: the session is not the one asked for')
                     sess = {'ibgp': ibgp, 'asn4': asn4, 'addpath': addpath, 'size': 65535 if big else 4096, 'local_as': 65000, 'peer_as': peer_as}
@@ -124,7 +124,7 @@ def other_session(families: list, fams: list) -> tuple:
         text = exa.neighbor_text(peer_ip='127.0.18.99', local_ip=LOCAL_IP, families=families, capability={'extended-message': 'enable'})
         _, neighbor = exa.neighbor_from_text(text)
         caps = [build.cap_mp(a, s) for a, s in fams] + [build.cap_asn4(65000), build.cap_ext_msg()]
-        _STATE[key] = (neighbor, exa.negotiate(neighbor, build.open_with_caps(65000, 90, 0x0A000002, caps), exa.Direction.OUT))
+        _STATE[key] = (neighbor, exa.negotiate(neighbor, build.open_with_caps(65000, 90, 0x0A000002, caps), exa.Direction.IN))
     return _STATE[key]
 
 
